@@ -480,6 +480,7 @@ fn main() {
     let single = a.kv.get("choices").map(|c| parse_choices(c));
     for i in 0..runs {
         let seed = if a.kv.contains_key("seedx") { a.num("seedx", 0) } else { seed0.wrapping_mul(1_000_003).wrapping_add(i) };
+        mark_run(seed);
         let (o, viol, cfgkey, cfg) = run_one(&kind, sub, seed, single.clone());
         let nontrivial = o.trace.iter().any(|l| l.ends_with(" pending")) && o.trace.iter().any(|l| l.contains(" sm.wake "));
         rep.add_run(&o.trace, nontrivial, &cfgkey, &format!("{:?}", o.verdict));
